@@ -194,7 +194,7 @@ def no_rng(ctx, pid, roots):
     for suf in roots:
         r, par = e1.reach(lib, suf)
         if r is None:
-            ctx.anchor_lost(rule, 'instance-graph root ' + suf)
+            ctx.anchor_lost(rule, 'instance-graph root ' + suf, hard=True)
             continue
         h = e1.hits(lib, par, e1.is_rng)
         wit = ' -> '.join(lib.path_to(par, h[0])[-6:]) if h else ''
